@@ -169,7 +169,14 @@ func createMethodMatcher(methods []string) (methodMatcher, error) {
 	methods = slicex.Subtract(methods, tbr)
 	tbr = slicex.Map[string, string](tbr, func(s string) string { return strings.TrimPrefix(s, "!") })
 
-	return slicex.Subtract(methods, tbr), nil
+	methods = slicex.Subtract(methods, tbr)
+	if len(methods) == 0 {
+		// an empty matcher would match every method
+		return nil, errorchain.NewWithMessage(heimdall.ErrConfiguration,
+			"methods list is empty after applying the exclusions")
+	}
+
+	return methods, nil
 }
 
 func createHostMatcher(hosts []config.HostMatcher) (compositeMatcher, error) {
